@@ -107,6 +107,12 @@ async fn handle_request_stream<S>(
     let mut rng: SmallRng = make_rng();
 
     while let Some(channel_request) = stream.next().await {
+        // Verification hook: fault injection point
+        #[cfg(aquatic_verif)]
+        if aquatic_common::verif::fault("http_swarm", 0) {
+            return;
+        }
+
         match channel_request {
             ChannelRequest::Announce {
                 request,
